@@ -16,7 +16,10 @@
 //	    error class, right error family), afterwards isomorphic trees;
 //	    systems: harness configuration (default volume, added volume,
 //	    non-initial tree) and the default configuration of the emulated OS
-//	    ("+sys") with the default locations as operands; every path-taking
+//	    ("+sys") with the default locations as operands, reached with the
+//	    current directory on the volume of the system area and ("@D+sys") on
+//	    an added volume; names that differ only by letter case as entries of
+//	    their own and as the two operands of Rename/Link; every path-taking
 //	    call also with its operands in the other spellings the Windows type
 //	    accepts (`C:/a/b`, `\a\b`, `/a/b`), from the volume root and from
 //	    below it;
@@ -78,7 +81,7 @@ func main() {
 	tier := flag.String("tier", "quick", "")
 	depth := flag.Int("depth", 0, "history bound of part (C) (default 2 quick / 3 thorough)")
 	volLen := flag.Int("vol-len", 0, "sequence bound of part (B) (default 3 quick / 4 thorough)")
-	systems := flag.String("systems", "MemFS,OrefaFS,MemFS+tree,OrefaFS+tree,MemFS@D,MemFS@D+tree,MemFS+sys,OrefaFS+sys", "systems of part (C): kind[@D][+tree][+sys]")
+	systems := flag.String("systems", "MemFS,OrefaFS,MemFS+tree,OrefaFS+tree,MemFS@D,MemFS@D+tree,MemFS+sys,OrefaFS+sys,MemFS@D+sys", "systems of part (C): kind[@D][+tree][+sys]")
 	replay := flag.String("replay", "", "re-execute a replay file of part (C) and print what happens")
 
 	var wflag string
@@ -306,7 +309,7 @@ func main() {
 
 		r := map[string]any{
 			"part": "pair", "fs": in.system, "history": in.hist, "op": in.op, "detail": det,
-			"how": "fresh Linux-typed and Windows-typed " + in.system + " (SystemDirs: /tmp resp. C:\\tmp; +sys: the constructor's own system directories and, MemFS, a MemIdm of the same OS type; umask 022, Chdir to the root); " +
+			"how": "fresh Linux-typed and Windows-typed " + in.system + " (SystemDirs: /tmp resp. C:\\tmp; +sys: the constructor's own system directories and, MemFS, a MemIdm of the same OS type; @D: Windows-typed side VolumeAdd(D:), its root is D:\\ - with +sys the system directories stay on C:; umask 022, Chdir to the root); " +
 				"apply the history then op on both, paths built with each instance's own Join under its root ($TMP = vfs.TempDir(), $HOME = avfs.HomeDir(vfs, \"\"), $HOMEUSER = avfs.HomeDirUser(vfs, \"\", vfs.User())); " +
 				"an operand written f:P, r:P or rf:P is, on the Windows-typed instance only, P's path with '/' for '\\' (f), without its volume (r: rooted on the volume of the current directory) or both (rf); windows_call in the detail shows the string given; " +
 				"re-execute: ./check " + *id + " " + *tier + " -replay <this file>",
@@ -387,7 +390,7 @@ func main() {
 			"states": states, "transitions": trans, "traces_validated_against_impl": trans,
 			"evaluations": trans + vst.ChecksWindows + vst.ChecksLinux + sst.Checked + pst.Calls + hst.Checks, "distinct_nontrivial": len(outcomes),
 			"outcome_classes": outcomes,
-			"rule": "(C) every history of length <= bound over the portable call alphabet (namespace calls, Glob and WalkDir with the wildcard / the root at every depth from the volume root down; every path-taking call, Chdir included, also with its operands in each other spelling of the Windows type: forward slashes, volume left out, both - on the Windows-typed side only; systems +sys: also the calls on the default locations $TMP, $HOME, $HOMEUSER and CreateTemp/MkdirTemp with dir \"\") executed in lock-step on a fresh Linux-typed and a fresh Windows-typed real instance, oracle on every transition; " +
+			"rule": "(C) every history of length <= bound over the portable call alphabet (namespace calls, Glob and WalkDir with the wildcard / the root at every depth from the volume root down; every path-taking call, Chdir included, also with its operands in each other spelling of the Windows type: forward slashes, volume left out, both - on the Windows-typed side only; names that differ from a name of the alphabet by the letter case of one element as entries of their own and as the two operands of Rename and Link; systems +sys: also the calls on the default locations $TMP, $HOME, $HOMEUSER and CreateTemp/MkdirTemp with dir \"\", system @D+sys: the same with the current directory of the Windows-typed side on an added volume, the system area staying on C:) executed in lock-step on a fresh Linux-typed and a fresh Windows-typed real instance, oracle on every transition; " +
 				"(D) every operand of <= bound elements over the element alphabet, absolute and relative, given to Glob (all), WalkDir and ReadDir (operands without wildcard) on both instances holding the same fixed tree, from each current directory, results compared in portable spelling; " +
 				"(B) every sequence of length <= bound over the volume alphabet executed on a fresh real MemFS of each OS type against the set model; " +
 				"(A) fixed list of facts and failing calls; the default configurations (constructor's system directories x default / same-type identity manager): each default location is an existing directory on both types or on neither, CreateTemp/MkdirTemp with dir \"\" agree; " +
@@ -396,10 +399,10 @@ func main() {
 				"distinct_nontrivial = distinct (call, Linux-typed outcome kind) classes observed in (C), (D) and (E) (listed in outcome_classes, those of (D) prefixed patterns:, those of (E) helpers:; a call with spelled operands is a class of its own per spelling and per current directory at / below the volume root: Mkdir[rf cwd=below-root]/ok; those of (B) are in volumes.outcome_classes)",
 			"samples":    samples,
 			"exhaustive": exh,
-			"bound": fmt.Sprintf("pair histories of length <= %d (completed %d) over names {a,b} depth <= 2 (+sys systems: plus $TMP, $TMP/a, $HOME, $HOMEUSER), operands spelled as Join gives them and, Windows-typed side, in the spellings {f: C:/a/b, r: \\a\\b, rf: /a/b} (%s); volume sequences of length <= %d over %d calls; "+
+			"bound": fmt.Sprintf("pair histories of length <= %d (completed %d) over names {a,b} depth <= 2 plus the names with one element in upper case (%s) (+sys systems: plus $TMP, $TMP/a, $HOME, $HOMEUSER; @D+sys: current directory of the Windows-typed side always on the added volume D:, default locations on C:), operands spelled as Join gives them and, Windows-typed side, in the spellings {f: C:/a/b, r: \\a\\b, rf: /a/b} (%s); volume sequences of length <= %d over %d calls; "+
 				"pattern operands of <= %d elements over %d elements {%s}, absolute and relative, %d current directories, %d systems, one fixed tree of depth %d; "+
 				"helper sequences of length <= %d over %d calls (users %s, base paths \"\" and the volume of the root), %d default configurations",
-				d, depthDone, spelledBound(*tier), vl, vst.AlphabetSize, pst.MaxElems, len(pst.Elements), strings.Join(pst.Elements, " "), len(pst.Cwds), len(pst.Systems), pst.MaxElems,
+				d, depthDone, caseBound(*tier), spelledBound(*tier), vl, vst.AlphabetSize, pst.MaxElems, len(pst.Elements), strings.Join(pst.Elements, " "), len(pst.Cwds), len(pst.Systems), pst.MaxElems,
 				hst.MaxLen, len(hst.Alphabet), strings.Join(hst.Users, ","), len(hst.Systems)),
 			"systems": all, "static": sst, "volumes": vst, "patterns": pst, "helpers": hst,
 			"static_facts_checked": sst.Checked, "volume_sequences_enumerated": vst.Sequences, "helper_sequences_enumerated": hst.Sequences,
@@ -418,8 +421,9 @@ func main() {
 			"default locations are spelled by role and resolved on each instance by the library's helpers for its current user ($TMP = vfs.TempDir(), $HOME = avfs.HomeDir(vfs, \"\"), $HOMEUSER = avfs.HomeDirUser(vfs, \"\", vfs.User()), MemFS only); the tree created by the constructor is compared as one line per role plus everything below $TMP; system entries without counterpart on the other type (C:\\Windows, the Default user's directories, the intermediate AppData\\Local) are not compared, nor is the content of $HOME and $HOMEUSER (on the Windows type the temporary directory lives below them); no Chdir into, no symbolic link inside and no removal of $HOME/$HOMEUSER (their depth below the root and their nesting differ by documentation)",
 			"Glob patterns hold no '\\\\' (escape on the Linux type, separator on the Windows type) and are built like paths (each instance's Join under its root); the order of the matches is compared; part (D) runs in the harness configuration on the default volume (MemFS, OrefaFS) and on an added volume D: (MemFS)",
 			"link targets are relative only (an absolute path of one OS is not a portable operand); symbolic-link calls only on MemFS (OrefaFS does not advertise FeatSymlink)",
-			"spellings: on the Windows type '\\' and '/' are both separators and a path that starts with a separator is rooted on the volume of the current directory, so C:\\a\\b, C:/a/b, \\a\\b and /a/b name the same entry while the current directory is on C: (always the case here: each instance of part (C) lives on one volume, C: or the added D:); a spelled call is judged like the unspelled one (same success/failure as the Linux-typed twin, which is given /a/b, isomorphic trees, same current directory). Not spelled: the target of Symlink (content, not an operand), drive-relative paths (C:a), lower-case drive letters, UNC and \\\\?\\ forms, mixed separators inside one path",
+			"spellings: on the Windows type '\\' and '/' are both separators and a path that starts with a separator is rooted on the volume of the current directory, so C:\\a\\b, C:/a/b, \\a\\b and /a/b name the same entry while the current directory is on C: (a spelling without volume is used only while the current directory is on the volume of the path: each instance of part (C) lives on one volume, C: or the added D:, except the default locations of system @D+sys, which stay on C: and keep their volume in every spelling); a spelled call is judged like the unspelled one (same success/failure as the Linux-typed twin, which is given /a/b, isomorphic trees, same current directory). Not spelled: the target of Symlink (content, not an operand), drive-relative paths (C:a), lower-case drive letters, UNC and \\\\?\\ forms, mixed separators inside one path",
 			"helpers (E): the exported functions of package avfs that take a file system and create something are MkHomeDir and MkSystemDirs (explicit list; generic functions cannot be enumerated by reflection); the pure ones they are built on (SystemDirs, HomeDir, HomeDirUser, TempDirUser, TempDir) are judged through them: what they name has to exist after the creating helper succeeded. Start states: the default configurations only (the helpers presuppose the system directories: without them the administrator's home is creatable on the Linux type alone, /root lying directly below the root, by documentation). Users: the administrator and added users of the identity manager of the file system (MemFS: the constructor's default and one of the same emulated type given explicitly) or, OrefaFS, of a MemIdm of the same OS type. Tree in role spelling = Lstat class of $HOME, $TMP, $HOMEOF(user) per user and everything below $TMP; the content of a user's home is not compared (the Windows type keeps the user's temporary directory there) but per side TempDirUser(user) has to be a directory after a successful MkHomeDir. The home of the administrator, $HOME and $TMP are not removed (nesting differs by documentation); the current directory stays on the volume of the root",
+			"letter case: the emulated tree is case sensitive on both OS types (a and A are two entries; what the Linux-typed twin does is demanded of the Windows-typed instance), although the lexical helpers of the Windows type (Rel, Match of volume names) fold case as path/filepath does on Windows; no case-insensitive look-up is expected anywhere",
 			"drive-letter case of volume names is undocumented: the observed behaviour is recorded (coverage.volumes.drive_letter_case_observed) and only its consistency is checked",
 		},
 		Violations: rep.NewCount(),
@@ -446,6 +450,15 @@ func spelledBound(tier string) string {
 	}
 
 	return "operands /, /a, /b, /a/b, patterns /* /a* /*/* /a/* /*/a */* a/*, walk roots / /a; two-path calls with both operands in the same spelling; Symlink targets a and /a"
+}
+
+// caseBound describes the letter-case dimension of a tier.
+func caseBound(tier string) string {
+	if tier == "thorough" {
+		return "every path of the alphabet with one element in upper case: all one-path calls on it, Rename and Link between it and the lower-case path in both directions"
+	}
+
+	return "/A, /A/a, /a/A, A: Mkdir, WriteFile, Remove, Stat, ReadDir, Chdir on them, Rename and Link between each and its lower-case path (/a, /a/a, a) in both directions"
 }
 
 // doReplay re-executes a replay file of part (C).
